@@ -53,7 +53,7 @@ BINDING = ({"D_total": 1}, {"D_total": 2}, {"D_total": 2}, {"D_total": 3}, {"D_t
 
 def plan(tier):
     if tier == "thorough":
-        return {"cases": 20000, "shards": 16, "budget_s": 800}
+        return {"cases": 16000, "shards": 16, "budget_s": 800}
     return {"cases": 2000, "shards": 8, "budget_s": 100}
 
 
@@ -311,7 +311,6 @@ class Prog:
         rng, psi, ctx, N = self.rng, self.psi, self.ctx, self.N
         n, to, nz = rng.randrange(N), rng.choice(("first", "last")), rng.random() < 0.5
         self.steps.append(["orthogonalize_site_", n, to, nz])
-        f0 = psi.factor
         psi.orthogonalize_site_(n, to=to, normalize=nz)
         self.count_step("orthogonalize_site_", nz)
         what = f"orthogonalize_site_({n}, to={to}, normalize={nz})"
@@ -550,7 +549,7 @@ class Prog:
 
     def manual_sweep(self, to, opts, nz, what):
         """truncate_'s loop driven from outside, with a dense look at every cut."""
-        psi, ctx, loc, N = self.psi, self.ctx, self.loc, self.N
+        psi = self.psi
         global_only = not ({"D_block", "tol_block"} & set(opts))
         d2 = 0.0
         for n in psi.sweep(to=to):
@@ -712,7 +711,6 @@ def canaries(ctx):
         pass
     ctx.canary("not-isometric", fired("not-isometric:canary"))
     # 4. cut check: keep the smaller of two Schmidt values
-    loc, N = P.loc, 2
     Q = Prog(sub, 2)
     Q.kind, Q.nrp, Q.N, Q.how, Q.pre, Q.q, Q.desc = "mps", 1, 2, "canary", None, (0,), None
     before = np.zeros(4)
